@@ -9,7 +9,7 @@ use std::rc::Rc;
 pub const DEF: PropDef = PropDef {
     id: "C02",
     level: "exploration",
-    rule: "(text, expected tree) pairs from a reference grammar that never calls the rrss parser: (1) every chain of 2 and 3 binary operators over 18 operator spellings with the tree from the precedence ladder; (2) unary prefixes in every operand position; (3) list operands at every precedence level (single operator, last-operator-takes-the-list, elements that are a higher- or lower-precedence operation, both separators); (4) primaries: subscript chains, calls with 1..3 arguments x 8 separators (incl. re-cased ones) x argument shapes, nested calls, roll, literals of every kind, 10 numeral spellings, 7 string spellings, the three name kinds (proper names also with non-ASCII capitals); (5) all statement kinds with every slot filled from a 14-shape expression set, in three contexts (top level, inside if, inside a function body); (6) every block-nesting shape over {simple, if, if-else, while, until, function} up to the node bound, closed by blank lines or by end of input; (7) on every base program of (4)-(6): every single departure from canonical spelling (each keyword x every alias as listed / upper case / capitalised, 3 case variants and all 2^n casings for n<=4; each gap x 28 noise kinds (blanks, tabs, ignorable punctuation, one / two / three comments in one gap, multi-line comments, non-ASCII white space); trailing punctuation; missing final newline; whole-program respellings: CR LF line ends, tabs or NBSP for every space, all keywords upper / title case, double spaces, blank lines carrying blanks, indentation on every line), (thorough) all pairs of departures on the statement corpus; oracle: RAst(parse(text)) == expected; non-trivial = all cases (each compares a full tree); distinct = distinct text",
+    rule: "(text, expected tree) pairs from a reference grammar that never calls the rrss parser: (1) every chain of 2 and 3 binary operators over 18 operator spellings with the tree from the precedence ladder; (2) unary prefixes in every operand position; (3) list operands at every precedence level (single operator, last-operator-takes-the-list, elements that are a higher- or lower-precedence operation, both separators); (4) primaries: subscript chains, calls with 1..3 arguments x 8 separators (incl. re-cased ones) x argument shapes, nested calls, roll, literals of every kind, 10 numeral spellings, 7 string spellings, the three name kinds (proper names also with non-ASCII capitals, common names whose noun is a literal word); (5) all statement kinds with every slot filled from a 14-shape expression set, in three contexts (top level, inside if, inside a function body); (6) every block-nesting shape over {simple, if, if-else, while, until, function} up to the node bound, closed by blank lines or by end of input; (7) on every base program of (4)-(6): every single departure from canonical spelling (each keyword x every alias as listed / upper case / capitalised, 3 case variants and all 2^n casings for n<=4; each gap x 28 noise kinds (blanks, tabs, ignorable punctuation, one / two / three comments in one gap, multi-line comments, non-ASCII white space); trailing punctuation; missing final newline; whole-program respellings: CR LF line ends, tabs or NBSP for every space, all keywords upper / title case, double spaces, blank lines carrying blanks, indentation on every line), (thorough) all pairs of departures on the statement corpus; oracle: RAst(parse(text)) == expected; non-trivial = all cases (each compares a full tree); distinct = distinct text",
     assumptions: &[
         "reference grammar (refmodel/grammar.rs): precedence ladder logical < comparison < term < factor < unary < primary, left-associative folds, the last operator before a comma takes the list, one blank line closes one block, else closes a then-block, an if-else ends a function body",
         "identifier spelling is part of the tree (names are compared as written), so identifier case is varied by C15, not here; poetic literals are content, varied by C11; corners the property does not determine (U-lists, U-emptyblock) are not generated",
@@ -211,7 +211,7 @@ fn primary_cases() -> Vec<Base> {
     for s in ["", " ", "a b", "!,.;", "é", "a\nb", "it's (not) a comment"] {
         v.push(say_case(pe(string(s))));
     }
-    for p in [name_simple("x"), name_simple("Zed"), name_common("the", "zed"), name_common("my", "Zed"), name_common("A", "yod"), name_proper(&["Zed", "Yod"]), name_proper(&["Zed", "Yod", "Qux"]), name_proper(&["Zed", "Élan"]), name_proper(&["Ångström", "Über", "Yod"])] {
+    for p in [name_simple("x"), name_simple("Zed"), name_common("the", "zed"), name_common("my", "Zed"), name_common("A", "yod"), name_proper(&["Zed", "Yod"]), name_proper(&["Zed", "Yod", "Qux"]), name_proper(&["Zed", "Élan"]), name_proper(&["Ångström", "Über", "Yod"]), name_common("my", "right"), name_common("the", "silence"), name_common("Your", "mysterious")] {
         v.push(say_case(pe(p.clone())));
         v.push(say_case(pe(sub(p.clone(), num("0")))));
         v.push(say_case(pe(sub(name_simple("x"), p))));
